@@ -997,6 +997,150 @@ def canonical_term_fields(tree):
             x.attr = ren[x.attr]
     return ren
 
+def dissolve_field_helper_objects(tree, foreign_text=''):
+    """A plain module-level class K (no bases, constructor ``__init__(self)`` made of ``self.x = <fresh value>`` statements,
+    no other special methods) whose instances are created only as ``self.F = K()`` in the methods of one class Y, always
+    for the same field F, and used there only as ``self.F.m(..)`` / ``self.F.x``: the fields of the object become fields
+    ``F__x`` of Y and its methods become methods ``_K__m`` of Y.  -> names of the dissolved classes"""
+    done = []
+    for K in [c for c in tree.body if isinstance(c, ast.ClassDef)]:
+        if K.decorator_list or K.keywords or any(not (isinstance(b, ast.Name) and b.id == 'object') for b in K.bases):
+            continue
+        if re.search(r'\b%s\b' % re.escape(K.name), foreign_text):
+            continue
+        body = [st for st in K.body if not (isinstance(st, ast.Pass) or (isinstance(st, ast.Expr) and isinstance(st.value, ast.Constant)))]
+        if not body or not all(isinstance(st, ast.FunctionDef) for st in body):
+            continue
+        meths = {m.name: m for m in body}
+        init = meths.pop('__init__', None)
+        if init is None or len(init.args.args) != 1 or init.args.vararg or init.args.kwarg or init.decorator_list:
+            continue
+        if any(n.startswith('__') for n in meths) or any(m.decorator_list or not m.args.args or m.args.vararg or m.args.kwarg for m in meths.values()):
+            continue
+        ime = init.args.args[0].arg
+        ibody = [st for st in init.body if not (isinstance(st, ast.Expr) and isinstance(st.value, ast.Constant))]
+        fields = {}
+        ok = True
+        for st in ibody:
+            if not (isinstance(st, ast.Assign) and len(st.targets) == 1 and isinstance(st.targets[0], ast.Attribute) and
+                    isinstance(st.targets[0].value, ast.Name) and st.targets[0].value.id == ime and
+                    not any(isinstance(x, ast.Name) and x.id == ime for x in ast.walk(st.value))):
+                ok = False
+                break
+            fields[st.targets[0].attr] = st.value
+        if not ok or not fields:
+            continue
+        set_parents(tree)
+        sites = []
+        for n in ast.walk(tree):
+            hit = (isinstance(n, ast.Name) and n.id == K.name) or (isinstance(n, ast.Attribute) and n.attr == K.name) or \
+                (isinstance(n, ast.Constant) and n.value == K.name)
+            if not hit:
+                continue
+            call = getattr(n, '_parent', None)
+            asg = getattr(call, '_parent', None)
+            if not (isinstance(n, ast.Name) and isinstance(call, ast.Call) and call.func is n and not call.args and not call.keywords and
+                    isinstance(asg, ast.Assign) and asg.value is call and len(asg.targets) == 1 and isinstance(asg.targets[0], ast.Attribute)
+                    and isinstance(asg.targets[0].value, ast.Name)):
+                ok = False
+                break
+            fn = asg
+            while fn is not None and not isinstance(fn, ast.FunctionDef):
+                fn = getattr(fn, '_parent', None)
+            cls = getattr(fn, '_parent', None) if fn is not None else None
+            holder = getattr(asg, '_parent', None)
+            if not isinstance(cls, ast.ClassDef) or cls is K or not fn.args.args or fn.args.args[0].arg != asg.targets[0].value.id or \
+                    not any(isinstance(getattr(holder, fld, None), list) and asg in getattr(holder, fld) for fld in ('body', 'orelse', 'finalbody')):
+                ok = False
+                break
+            sites.append((cls, asg.targets[0].attr, asg, holder))
+        if not ok or not sites or len({id(c) for c, _, _, _ in sites}) != 1 or len({f for _, f, _, _ in sites}) != 1:
+            continue
+        Y, F = sites[0][0], sites[0][1]
+        new_m = {m: '_%s__%s' % (K.name.lstrip('_'), m) for m in meths}
+        new_f = {x: '%s__%s' % (F, x.lstrip('_')) for x in fields}
+        ynames = {st.name for st in Y.body if isinstance(st, (ast.FunctionDef, ast.ClassDef))} | \
+            {x.attr for x in ast.walk(Y) if isinstance(x, ast.Attribute)}
+        if (set(new_m.values()) | set(new_f.values())) & ynames:
+            continue
+        # uses of the field: self.F.m(..) and self.F.x inside Y only, never the object itself
+        for n in ast.walk(tree):
+            if isinstance(n, ast.Attribute) and n.attr == F:
+                par = getattr(n, '_parent', None)
+                fn = n
+                while fn is not None and not isinstance(fn, ast.FunctionDef):
+                    fn = getattr(fn, '_parent', None)
+                inside = fn is not None and isinstance(getattr(fn, '_parent', None), ast.ClassDef) and fn._parent is Y and fn.args.args and \
+                    isinstance(n.value, ast.Name) and n.value.id == fn.args.args[0].arg
+                if isinstance(n.ctx, ast.Store):
+                    if not any(n is a.targets[0] for _, _, a, _ in sites):
+                        ok = False
+                elif not (inside and isinstance(par, ast.Attribute) and par.value is n and (par.attr in meths or par.attr in fields)):
+                    ok = False
+                elif par.attr in meths and not (isinstance(getattr(par, '_parent', None), ast.Call) and par._parent.func is par):
+                    ok = False
+            if isinstance(n, ast.Constant) and n.value == F:
+                ok = False
+        for m in meths.values():
+            me = m.args.args[0].arg
+            for x in ast.walk(m):
+                if isinstance(x, ast.Name) and x.id in ('super', '__class__'):
+                    ok = False
+                if isinstance(x, ast.Name) and x.id == me:
+                    par = getattr(x, '_parent', None)
+                    if isinstance(x.ctx, (ast.Store, ast.Del)) or not (isinstance(par, ast.Attribute) and par.value is x and
+                                                                       (par.attr in fields or par.attr in meths)):
+                        ok = False
+                if isinstance(x, (ast.FunctionDef, ast.Lambda)) and x is not m:
+                    ok = False
+        if not ok:
+            continue
+        # 1. uses in Y
+        class U(ast.NodeTransformer):
+            def visit_Attribute(self, node):
+                self.generic_visit(node)
+                if isinstance(node.value, ast.Attribute) and node.value.attr == F and isinstance(node.value.ctx, ast.Load):
+                    if node.attr in meths:
+                        return ast.copy_location(ast.Attribute(value=node.value.value, attr=new_m[node.attr], ctx=node.ctx), node)
+                    if node.attr in fields:
+                        return ast.copy_location(ast.Attribute(value=node.value.value, attr=new_f[node.attr], ctx=node.ctx), node)
+                return node
+        U().visit(Y)
+        # 2. the constructions: self.F = K()  ->  self.F__x = <initial value> ...
+        for _, _, asg, holder in sites:
+            recv = asg.targets[0].value
+            stmts = []
+            for x, v in fields.items():
+                st = ast.Assign(targets=[ast.Attribute(value=_clone(recv), attr=new_f[x], ctx=ast.Store())], value=_clone(v))
+                ast.copy_location(st, asg)
+                ast.fix_missing_locations(st)
+                stmts.append(st)
+            for fld in ('body', 'orelse', 'finalbody'):
+                lst = getattr(holder, fld, None)
+                if isinstance(lst, list) and asg in lst:
+                    i = lst.index(asg)
+                    lst[i:i + 1] = stmts
+        # 3. the methods move
+        for m in meths.values():
+            me = m.args.args[0].arg
+
+            class Sub(ast.NodeTransformer):
+                def visit_Attribute(self, node):
+                    self.generic_visit(node)
+                    if isinstance(node.value, ast.Name) and node.value.id == me:
+                        if node.attr in meths:
+                            return ast.copy_location(ast.Attribute(value=node.value, attr=new_m[node.attr], ctx=node.ctx), node)
+                        if node.attr in fields:
+                            return ast.copy_location(ast.Attribute(value=node.value, attr=new_f[node.attr], ctx=node.ctx), node)
+                    return node
+            m.body = [Sub().visit(st) for st in m.body]
+            m.name = new_m[m.name]
+            ast.fix_missing_locations(m)
+            Y.body.append(m)
+        tree.body = [st for st in tree.body if st is not K]
+        done.append(K.name)
+    return done
+
 
 class FuncInfo:
     def __init__(self, module, node, cls=None, parent=None):
@@ -1128,7 +1272,8 @@ class Module:
         self.inlined_properties = inline_simple_properties(self.tree)
         self.flattened = flatten_single_use_bases(self.tree, repo.foreign_text(name))
         self.specialised = specialise_template_methods(self.tree)
-        self.dissolved = dissolve_field_helper_classes(self.tree, repo.foreign_text(name))
+        self.dissolved = dissolve_field_helper_classes(self.tree, repo.foreign_text(name)) + \
+            dissolve_field_helper_objects(self.tree, repo.foreign_text(name))
         set_parents(self.tree)
         self.expanded = expand_context_manager_classes(self.tree) + expand_generator_context_managers(self.tree)
         self.classes = {}
